@@ -163,9 +163,9 @@ Theorem C09_checker_sound :
 Proof. exact DiscretizeProofs.C09_checker_sound. Qed.
 Print Assumptions C09_checker_sound.
 
-(* NOT PROVED (budget): clause "no bucket free of over-represented values holds more than
-   2.5*min_freq of the rows" (quantile_bucket_bound_partial).  It is checked on every
-   ContinuousDiscretizer case by the harness oracle (plain counting), never by a theorem. *)
+(* clause "no bucket free of over-represented values holds more than 2.5*min_freq of the rows":
+   see block (3') at the end of this file (C09_quantile_bucket_bound...).  It is also checked on
+   every ContinuousDiscretizer case by the harness oracle (plain counting). *)
 
 Open Scope string_scope.
 (* hypotheses are satisfiable and the model computes *)
@@ -205,3 +205,103 @@ Example C09_nonvacuous :
               /\ List.length bs' = 2%nat /\ buckets_ok 20 (f_of_dyadic 1 (-2)) bs' = true
               /\ contiguous order bs'.
 Proof. exact C09_example. Qed.
+
+(* ---- (3') ContinuousDiscretizer: "no bucket free of over-represented values holds more than
+   2.5*min_freq of the rows" ----------------------------------------------------------------------
+   Buckets are the intervals (lo, hi] cut by consecutive boundaries of find_quantiles (both variants),
+   the first one open to the left, the last one closed by +inf: [bounds None l]; [bucket_count vc lo hi]
+   = training rows with lo < value <= hi.  "Free of over-represented values": the right end hi is not
+   a value with count >= fl(len_df/q) (such a bucket then contains none, left end excluded).
+   What binary64 does in q_position / new_q_of / the threshold comparison enters through three
+   explicit premises (each a finite, decidable statement about the instance; booleans
+   positions_check / newq_check / thr_check decide them):
+     positions_near e : the position of the i-th of nq quantiles among n rows is within e of
+                        floor((n-1)*i/nq)                        (e = 0: exact)
+     newq_near K      : new_q = round(fl(fl(n/len_df)*q)) >= n*q/len_df*(1 - 1/(K+1)) - 1/2
+     thr_exact        : a count that is not >= fl(len_df/q) as floats is < len_df/q as a number  *)
+From AC.Proofs Require Import QuantileBucketProofs.
+
+(* such a bucket lies inside ONE sub-sample without over-represented value (n rows, cut in nq
+   quantiles) and holds at most floor((n-1)/nq) + 2e + c rows, c = rows of the value closing it
+   (1 for the bucket closed by +inf); all n rows when nq <= 1 *)
+Theorem C09_quantile_bucket_bound_in_leaf : forall e dedup q len_df vc l,
+  Sorted Z.lt (observed_values vc) -> Forall (fun p => 0 < snd p) vc -> 0 <= e ->
+  positions_near e q len_df (total vc) ->
+  find_quantiles_v dedup q len_df vc = QOk l ->
+  forall lo hi, In (lo, hi) (bounds None l) ->
+  (forall b c, hi = Some b -> In (b, c) vc -> is_freq (thr len_df q) c = false) ->
+  bucket_count vc lo hi = 0 \/
+  exists seg c nq,
+    (forall p, In p seg -> In p vc /\ is_freq (thr len_df q) (snd p) = false)
+    /\ seg <> [] /\ new_q_of q len_df (total seg) = Some nq
+    /\ match hi with Some b => In (b, c) seg | None => c = 1 end
+    /\ bucket_count vc lo hi <= if 1 <? nq then (total seg - 1) / nq + 2 * e + c else total seg.
+Proof. exact C09_bucket_in_leaf. Qed.
+Print Assumptions C09_quantile_bucket_bound_in_leaf.
+
+(* closed form: at most 2.25*len_df/q + 2e rows *)
+Theorem C09_quantile_bucket_bound : forall e K dedup q len_df vc l,
+  Sorted Z.lt (observed_values vc) -> Forall (fun p => 0 < snd p) vc -> total vc <= len_df ->
+  0 < q -> 0 <= e -> 0 < K -> len_df <= K ->
+  thr_exact q len_df vc -> newq_near K q len_df (total vc) -> positions_near e q len_df (total vc) ->
+  find_quantiles_v dedup q len_df vc = QOk l ->
+  forall lo hi, In (lo, hi) (bounds None l) ->
+  (forall b c, hi = Some b -> In (b, c) vc -> is_freq (thr len_df q) c = false) ->
+  4 * q * bucket_count vc lo hi <= 9 * len_df + 8 * e * q.
+Proof. exact C09_bucket_bound. Qed.
+Print Assumptions C09_quantile_bucket_bound.
+
+(* hence at most 2.5/q of the rows as soon as len_df/q >= 8e *)
+Theorem C09_quantile_bucket_bound_2_5 : forall e K dedup q len_df vc l,
+  Sorted Z.lt (observed_values vc) -> Forall (fun p => 0 < snd p) vc -> total vc <= len_df ->
+  0 < q -> 0 <= e -> 0 < K -> len_df <= K -> 8 * e * q <= len_df ->
+  thr_exact q len_df vc -> newq_near K q len_df (total vc) -> positions_near e q len_df (total vc) ->
+  find_quantiles_v dedup q len_df vc = QOk l ->
+  forall lo hi, In (lo, hi) (bounds None l) ->
+  (forall b c, hi = Some b -> In (b, c) vc -> is_freq (thr len_df q) c = false) ->
+  2 * q * bucket_count vc lo hi <= 5 * len_df.
+Proof. exact C09_bucket_bound_2_5. Qed.
+Print Assumptions C09_quantile_bucket_bound_2_5.
+
+(* FULL statement with 2.5*min_freq (min_freq = fst mf * 2^(snd mf)) instead of 2.5/q is FALSE of the
+   model and of the code: min_freq = 0.29 (q = 3), 120 rows of which 20 missing, values 1,2,3,4 with
+   39,10,39,12 rows: no count reaches 120/3, one boundary (3), bucket (-inf,3] holds 88 rows,
+   88/120 > 2.5*0.29; besides, the value 1 has frequency 39/120 >= 0.29 and is not a boundary *)
+Theorem C09_quantile_bucket_bound_min_freq_refuted :
+  exists mf q N vc l lo b,
+    Sorted Z.lt (observed_values vc) /\ Forall (fun p => 0 < snd p) vc /\ total vc <= N
+    /\ q_of_min_freq mf = Some q
+    /\ (forall dedup, find_quantiles_v dedup q N vc = QOk l)
+    /\ In (lo, Some b) (bounds None l)
+    /\ (forall p, In p vc -> is_freq (thr N q) (snd p) = false)
+    /\ thr_check q N vc = true /\ newq_check (2 ^ 51) q N (total vc) = true
+    /\ positions_check 0 q N (total vc) = true
+    /\ 5 * fst mf * N < 2 * bucket_count vc lo (Some b) * 2 ^ (- snd mf)
+    /\ 2 * q * bucket_count vc lo (Some b) <= 5 * N
+    /\ (exists v c, In (v, c) vc /\ fst mf * N <= c * 2 ^ (- snd mf) /\ ~ In v l).
+Proof. exact bucket_bound_min_freq_refuted. Qed.
+Print Assumptions C09_quantile_bucket_bound_min_freq_refuted.
+
+(* it holds when min_freq is not below (0.9 + 0.8*e*q/len_df)/q, e.g. whenever 1/min_freq is an integer
+   and len_df/q >= 8e *)
+Theorem C09_quantile_bucket_bound_min_freq_partial : forall e K dedup mf q len_df vc l,
+  Sorted Z.lt (observed_values vc) -> Forall (fun p => 0 < snd p) vc -> total vc <= len_df ->
+  0 < q -> 0 <= e -> 0 < K -> len_df <= K ->
+  snd mf <= 0 -> (9 * len_df + 8 * e * q) * 2 ^ (- snd mf) <= 10 * q * fst mf * len_df ->
+  thr_exact q len_df vc -> newq_near K q len_df (total vc) -> positions_near e q len_df (total vc) ->
+  find_quantiles_v dedup q len_df vc = QOk l ->
+  forall lo hi, In (lo, hi) (bounds None l) ->
+  (forall b c, hi = Some b -> In (b, c) vc -> is_freq (thr len_df q) c = false) ->
+  2 * bucket_count vc lo hi * 2 ^ (- snd mf) <= 5 * fst mf * len_df.
+Proof. exact C09_bucket_bound_min_freq. Qed.
+Print Assumptions C09_quantile_bucket_bound_min_freq_partial.
+
+(* the premises are satisfiable (exact positions, e = 0): the sample above with min_freq = 1/3 *)
+Example C09_quantile_bucket_bound_nonvacuous :
+  let vc := vc_witness in
+  wf_vc vc /\ total vc <= 120 /\ thr_exact 3 120 vc /\ newq_near (2 ^ 51) 3 120 (total vc)
+  /\ positions_near 0 3 120 (total vc)
+  /\ find_quantiles_v true 3 120 vc = QOk [3]
+  /\ bounds None [3] = [(None, Some 3); (Some 3, None)]
+  /\ bucket_count vc None (Some 3) = 88 /\ bucket_count vc (Some 3) None = 12.
+Proof. exact bucket_bound_example. Qed.
